@@ -776,6 +776,23 @@ class World(object):
         return Resp(bytes(s.buffer))
 
 
+def _engine_direct(self, msg, identity=('alice', None)):
+    """Engine seam WITHOUT the codec on the way in: the request object goes straight into
+    process_request (reaches header handling for versions the decoder would already refuse)."""
+    pv = msg.request_header.protocol_version
+    try:
+        response, max_size, pv = self.engine.process_request(msg, identity)
+    except exceptions.KmipError as e:
+        response = self.engine.build_error_response(pv, e.reason, str(e))
+    s = cutils.BytearrayStream()
+    kv = contents.protocol_version_to_kmip_version(pv) or enums.KMIPVersion.KMIP_1_0
+    response.write(s, kmip_version=kv)
+    return Resp(bytes(s.buffer))
+
+
+World.engine_direct = _engine_direct
+
+
 # SLUGS stand-in: the session's SLUGS connector asks `requests.get`; answer from the URL itself
 # (http://slugs/<g1,g2>/users/<user>[/groups]) so that no shared mutable state is involved.
 class _SlugsResponse(object):
